@@ -34,6 +34,11 @@ Definition dispatch (req : sx) : sx :=
   else if op =? "default" then sx_bool (match default_of (gS a1) with DefPass => true | DefRaise => false end)
   else if op =? "decode" then sx_enum_val (enum_decode (table_named all_tables (gS a1)) (default_of (gS a1)) (gI a2))
   else if op =? "decode_dict" then sx_enum_val (enum_decode_dict (table_named all_tables (gS a1)) (default_of (gS a1)) (gI a2))
+  (* decode over  dict(A); .update(B)  (elf/structs.py _create_dyn): (decode_upd A B v), default of A *)
+  else if op =? "decode_upd" then
+    sx_enum_val (enum_decode (table_update (table_named all_tables (gS a1)) (table_named all_tables (gS a2)))
+                             (default_of (gS a1)) (gI (nthx 3 l)))
+  else if op =? "registry" then SL (map sx_pair registry)
   (* the boolean the theorems compute, and its counterexamples *)
   else if op =? "agrees" then sx_bool (registry_agreesb (table_named all_tables (gS a1)))
   else if op =? "disagreements" then SL (map sx_pair (disagreements registry_lookup (table_named all_tables (gS a1))))
